@@ -4,6 +4,7 @@ package main
 
 import (
 	"fmt"
+	"go/constant"
 	"go/token"
 	"go/types"
 	"sort"
@@ -811,6 +812,63 @@ func ruleWalkErr(p *Prog, r *Report) {
 					}
 				}
 				walk(nonnil)
+			}
+			// and no exit at all that is not about the walk itself: the loop may leave on the step's own results
+			// (readInnerBox's error or its "no more children" flag) and on the error of the child's close(), on nothing else
+			if bad == "" {
+				for _, ifi := range exitTests(l) {
+					okCond := true
+					why := ""
+					seenV := map[ssa.Value]bool{}
+					var src func(v ssa.Value, d int)
+					src = func(v ssa.Value, d int) {
+						if seenV[v] || d > 8 || !okCond {
+							return
+						}
+						seenV[v] = true
+						switch x := v.(type) {
+						case *ssa.BinOp:
+							src(x.X, d+1)
+							src(x.Y, d+1)
+						case *ssa.UnOp:
+							if x.Op == token.NOT {
+								src(x.X, d+1)
+							} else {
+								okCond, why = false, shortVal(x)
+							}
+						case *ssa.Phi:
+							for _, e := range x.Edges {
+								src(e, d+1)
+							}
+						case *ssa.Extract:
+							src(x.Tuple, d+1)
+						case *ssa.Call:
+							sc := x.Call.StaticCallee()
+							if sc != nil && strings.HasPrefix(sc.Name(), "logLevel") {
+								return // a level test next to an error test: C15 LOGFLOW decides that the level changes nothing
+							}
+							if sc != step && sc != cls {
+								// a handler's result: the reachability clause above has dealt with error tests; a loop exit
+								// directly on it is an early end of the walk
+								okCond, why = false, "the result of "+calleeName(&x.Call)
+							}
+						case *ssa.Const:
+							if x.Value != nil {
+								// a literal true/false assigned to a flag inside the loop
+								if _, isPhiEdge := v.(*ssa.Const); isPhiEdge && x.Value.Kind() == constant.Bool {
+									okCond, why = false, "a flag set inside the loop"
+								}
+							}
+						default:
+							okCond, why = false, shortVal(v)
+						}
+					}
+					src(ifi.Cond, 0)
+					if !okCond {
+						bad = fmt.Sprintf("the walk can end at %s on %s — not on the end of the children, a failing step or a failing close: the children after that point, the Exif boxes among them, are never read", p.posStr(instrPos(ifi)), why)
+						break
+					}
+				}
 			}
 			if bad != "" {
 				r.Bad("WALKERR", key, at, bad)
